@@ -688,8 +688,14 @@ pub fn history(tr: &mut Tracer, w: &mut World, rng: &mut Rng, p: &Profile) {
                 13 => {
                     if rng.chance(1, 2) {
                         tr.step(w, &Op::Vamm { sender: ID_OWNER, v, m: VMsg::UpdCfg { hold: None, oi: None, toll: None, spread: None, fluct: None, engine: None, ifund: Some(STRANGER), feed: None, twap: None } });
-                        tr.step(w, &Op::Vamm { sender: STRANGER, v, m: VMsg::SetOpen(false) });
-                        tr.step(w, &Op::Vamm { sender: ID_OWNER, v, m: VMsg::SetOpen(true) });
+                        if rng.chance(1, 2) {
+                            tr.step(w, &Op::Vamm { sender: STRANGER, v, m: VMsg::SetOpen(false) });
+                            tr.step(w, &Op::Vamm { sender: ID_OWNER, v, m: VMsg::SetOpen(true) });
+                        }
+                        // trading goes on meanwhile: the fees still go where the engine's configuration says
+                        let op = mk_open(w, t, v, if rng.chance(1, 2) { Side::Buy } else { Side::Sell }, d * (1 + rng.below(20) as u128), d * 2, 0); tr.step(w, &op);
+                        if rng.chance(1, 2) { let fees = w.position(v, t).map(|p| calc_fee(w, v, p.notional.u128())).unwrap_or(0);
+                            tr.step(w, &Op::Eng { sender: t, funds: if w.d.native { fees } else { 0 }, m: EMsg::Close { vamm: v, limit: 0 } }); }
                         tr.step(w, &Op::Vamm { sender: ID_OWNER, v, m: VMsg::UpdCfg { hold: None, oi: None, toll: None, spread: None, fluct: None, engine: None, ifund: Some(ID_IFUND), feed: None, twap: None } });
                     } else {
                         let other = if rng.chance(1, 2) { ID_FEED } else { STRANGER };
@@ -972,7 +978,14 @@ pub fn history(tr: &mut Tracer, w: &mut World, rng: &mut Rng, p: &Profile) {
                 1 => { tr.step(w, &Op::Eng { sender: t, funds: 0, m: EMsg::Open { vamm: v, side: Side::Sell, margin: d, lev: 0, limit: 0 } }); }
                 2 => { tr.step(w, &Op::Eng { sender: t, funds: 0, m: EMsg::Open { vamm: STRANGER, side: Side::Buy, margin: d, lev: d, limit: 0 } }); }
                 3 => { tr.step(w, &Op::Eng { sender: STRANGER, funds: 0, m: EMsg::Close { vamm: v, limit: 0 } }); }
-                4 => { tr.step(w, &Op::Eng { sender: STRANGER, funds: 0, m: EMsg::UpdCfg { owner: Some(STRANGER), ifund: None, fpool: None, init: None, maint: None, plr: None, liqfee: None } }); }
+                4 => { // a non-owner tries every kind of configuration field, one at a time
+                       let m = match rng.below(5) {
+                           0 => EMsg::UpdCfg { owner: Some(STRANGER), ifund: None, fpool: None, init: None, maint: None, plr: None, liqfee: None },
+                           1 => EMsg::UpdCfg { owner: None, ifund: None, fpool: Some(STRANGER), init: None, maint: None, plr: None, liqfee: None },
+                           2 => EMsg::UpdCfg { owner: None, ifund: Some(STRANGER), fpool: None, init: None, maint: None, plr: None, liqfee: None },
+                           3 => EMsg::UpdCfg { owner: None, ifund: None, fpool: None, init: None, maint: None, plr: None, liqfee: Some(d / 2) },
+                           _ => EMsg::UpdCfg { owner: None, ifund: None, fpool: None, init: Some(d), maint: Some(d / 2), plr: None, liqfee: None } };
+                       tr.step(w, &Op::Eng { sender: STRANGER, funds: 0, m }); }
                 5 => { tr.step(w, &Op::Eng { sender: STRANGER, funds: 0, m: EMsg::SetPause(true) }); }
                 6 => { let dir = if rng.chance(1, 2) { Dir::Add } else { Dir::Rem };
                        if rng.chance(1, 2) { tr.step(w, &Op::Vamm { sender: t, v, m: VMsg::SwapIn { dir, q: d, lim: 0, cgo: false } }); }
